@@ -92,6 +92,17 @@ for pid in ["C%02d" % i for i in range(2, 21)]:
 def main():
     checks = []
     nas = []
+    # the clauses each check decides are kept next to the rules in the analyser: take the current text from it
+    import subprocess
+    desc = {}
+    try:
+        out = subprocess.run([os.path.join(HERE, "bin", "verifcheck"), "-describe"], capture_output=True, text=True, check=True).stdout
+        desc = json.loads(out)
+    except Exception as e:
+        print("warning: verifcheck -describe failed (%s); keeping the static texts" % e, file=sys.stderr)
+    for pid, d in desc.items():
+        if pid in P and P[pid]["claimed"]:
+            P[pid]["text"] = "Structural necessary conditions only, decided for every path of the current source (level other). " + d["explanation"]
     for pid in sorted(P):
         p = P[pid]
         if p["claimed"]:
